@@ -19,7 +19,8 @@ EXPL = ("Closed normal forms (exact rational functions over the constants a,b,c,
 
 
 def trace_key(o):
-    return tuple((poly.key_str(c), d) for c, d in o.trace)
+    """Dispatch decisions only (tests on the equation type); data-dependent tests inside an arm are part of the arm."""
+    return tuple((poly.key_str(c), d) for c, d in o.trace if isinstance(c, tuple) and c and c[0] in ("streq", "streq2"))
 
 
 def run(ck):
@@ -48,12 +49,21 @@ def run(ck):
     # parameter atoms
     tp = poly.T.sym(fp.params[1])
     th = poly.T.sym(fh.params[1])
-    by_trace_h = {trace_key(o): o for o in outs_h}
+    by_trace_h = {}
+    for o in outs_h:
+        by_trace_h.setdefault(trace_key(o), []).append(o)
     arms = 0
+    seen_arms = set()
+    pairs = []
     for o in outs_p:
+        for oh in by_trace_h.get(trace_key(o), [None]):
+            pairs.append((o, oh))
+    for o, oh in pairs:
         tk = trace_key(o)
         arm = " & ".join("%s=%s" % (c, d) for c, d in tk) or "unconditional"
-        oh = by_trace_h.get(tk)
+        extra = [(poly.key_str(c), d) for c, d in list(o.trace) + (list(oh.trace) if oh is not None else []) if (poly.key_str(c), d) not in tk]
+        if extra:
+            arm += " | " + ", ".join("%s=%s" % cd for cd in extra)
         if oh is None:
             ck.ob("K2", fh.qualname, "dispatch arm " + arm, fh.loc(), False,
                   "get_vapor_pressure has an arm that get_vaporisation_heat does not dispatch on")
@@ -62,52 +72,69 @@ def run(ck):
             ck.ob("K2", fh.qualname, "dispatch arm " + arm, fh.loc(), o.kind == oh.kind,
                   "pressure arm %ss, heat arm %ss" % (o.kind, oh.kind))
             continue
-        arms += 1
+        if tk not in seen_arms:
+            seen_arms.add(tk)
+            arms += 1
         if not (isinstance(o.value, Num) and isinstance(oh.value, Num)):
             raise AnalysisError("non-numeric return in %s" % fp.qualname)
-        lnp = mk_log(o.value.r)
-        lhs = Rv.r * Rat.atom(tp) ** 2 * diff(lnp, tp)
-        rhs = Rat.const(1000) * subst(oh.value.r, {th.id: Rat.atom(tp)})
-        where = oh.trace_where[-1] if oh.trace_where else fh.loc()
-        ck.ob("K1", fh.qualname, "arm " + arm, fh.loc(), lhs == rhs,
-              "Clausius-Clapeyron: R*T^2*dlnP/dT vs 1000*H", expected=str(lhs), found=str(rhs), sample=True)
-    for tk, oh in by_trace_h.items():
+        try:
+            lnp = mk_log(o.value.r)
+            lhs = Rv.r * Rat.atom(tp) ** 2 * diff(lnp, tp)
+            rhs = Rat.const(1000) * subst(oh.value.r, {th.id: Rat.atom(tp)})
+            okk, exp_s, got_s = lhs == rhs, str(lhs), str(rhs)
+        except poly.Unmodelled as e:
+            okk, exp_s, got_s = False, "R*T^2*dlnP/dT", "cannot be formed: %s" % e
+        ck.ob("K1", fh.qualname, "arm " + arm, fh.loc(), okk,
+              "Clausius-Clapeyron: R*T^2*dlnP/dT vs 1000*H", expected=exp_s, found=got_s, sample=True)
+    for tk in by_trace_h:
         if tk not in {trace_key(o) for o in outs_p}:
             ck.ob("K2", fh.qualname, "dispatch arm " + str(tk), fh.loc(), False,
                   "get_vaporisation_heat has an arm that get_vapor_pressure does not dispatch on")
     ck.floor("vapour-pressure equation arms", arms, 2)
-    n_raise = sum(1 for o in outs_p if o.kind == "raise")
-    ck.ob("K2", fp.qualname, "unknown equation type raises", fp.loc(), n_raise >= 1 and
-          all(o.kind == "raise" for o in outs_p if all(not d for _, d in o.trace)),
-          "the path on which no equation type matches must raise")
-    ck.ob("K2", fh.qualname, "unknown equation type raises", fh.loc(),
-          all(o.kind == "raise" for o in outs_h if all(not d for _, d in o.trace)) and
-          any(o.kind == "raise" for o in outs_h), "the path on which no equation type matches must raise")
+    def nomatch(o):
+        tk = trace_key(o)
+        return bool(tk) and all(not d for _, d in tk)
+    ck.ob("K2", fp.qualname, "unknown equation type raises", fp.loc(), any(nomatch(o) for o in outs_p) and
+          all(o.kind == "raise" for o in outs_p if nomatch(o)), "the path on which no equation type matches must raise")
+    ck.ob("K2", fh.qualname, "unknown equation type raises", fh.loc(), any(nomatch(o) for o in outs_h) and
+          all(o.kind == "raise" for o in outs_h if nomatch(o)), "the path on which no equation type matches must raise")
     # K3
     oc = analyse(repo, fc, cfg)
     oq = analyse(repo, fq, cfg)
     ck.analysed["paths"] += len(oc) + len(oq)
-    if len(oc) != 1 or len(oq) != 1 or oc[0].kind != "return" or oq[0].kind != "return":
-        ck.ob("K3", fq.qualname, "single straight-line return", fq.loc(), False,
-              "specific/cooling heat are expected to be single-path functions (found %d/%d paths)" % (len(oc), len(oq)))
+    if len(oc) != 1 or oc[0].kind != "return" or not oq or any(o.kind != "return" for o in oq):
+        ck.ob("K3", fq.qualname, "specific heat is a single-path function and the cooling heat always returns", fq.loc(), False,
+              "found %d / %d paths" % (len(oc), len(oq)))
         return
     cp = oc[0].value.r
-    E = oq[0].value.r
+    for oqi in oq:
+        k3(ck, fq, fc, cp, oqi.value.r, " | ".join("%s=%s" % (poly.key_str(c), d) for c, d in oqi.trace))
+    ck.exhaustive = True
+    ck.assume("attrs converters float(value) on the constants are value-preserving")
+
+
+def k3(ck, fq, fc, cp, E, label):
+    ck = ck.scoped(label or "unconditional")
     tc = poly.T.sym(fc.params[1])
     t0 = poly.T.sym(fq.params[1])
     t1 = poly.T.sym(fq.params[2])
     a, b, c = (poly.T.sym("#ta"), poly.T.sym("#tb"), poly.T.sym("#tc"))
     A = lambda x, y: subst(E, {t0.id: Rat.atom(x), t1.id: Rat.atom(y)})
-    ck.ob("K3", fq.qualname, "dE/dt0 == cp(t0)", fq.loc(), diff(E, t0) == subst(cp, {tc.id: Rat.atom(t0)}),
-          "derivative with respect to the first limit is the specific heat",
-          expected=str(subst(cp, {tc.id: Rat.atom(t0)})), found=str(diff(E, t0)), sample=True)
-    ck.ob("K3", fq.qualname, "dE/dt1 == -cp(t1)", fq.loc(), diff(E, t1) == -subst(cp, {tc.id: Rat.atom(t1)}),
-          "derivative with respect to the second limit is minus the specific heat",
-          expected=str(-subst(cp, {tc.id: Rat.atom(t1)})), found=str(diff(E, t1)))
-    ck.ob("K3", fq.qualname, "E(t,t) == 0", fq.loc(), A(a, a).is_zero(), "empty interval", found=str(A(a, a)))
-    ck.ob("K3", fq.qualname, "E(a,b) + E(b,a) == 0", fq.loc(), (A(a, b) + A(b, a)).is_zero(), "antisymmetry",
-          found=str(A(a, b) + A(b, a)))
-    ck.ob("K3", fq.qualname, "E(a,b) + E(b,c) == E(a,c)", fq.loc(), A(a, b) + A(b, c) == A(a, c), "additivity",
-          found=str(A(a, b) + A(b, c) - A(a, c)))
+
+    def decide(what, detail, fn):
+        """fn() -> (ok, expected, found); a form that cannot be differentiated / compared is an undischarged obligation"""
+        try:
+            okk, ex, fo = fn()
+        except poly.Unmodelled as e:
+            okk, ex, fo = False, None, "cannot be decided for this form of the cooling heat: %s" % e
+        ck.ob("K3", fq.qualname, what, fq.loc(), okk, detail, expected=ex, found=fo, sample=True)
+
+    decide("dE/dt0 == cp(t0)", "derivative with respect to the first limit is the specific heat",
+           lambda: (diff(E, t0) == subst(cp, {tc.id: Rat.atom(t0)}), str(subst(cp, {tc.id: Rat.atom(t0)})), str(diff(E, t0))))
+    decide("dE/dt1 == -cp(t1)", "derivative with respect to the second limit is minus the specific heat",
+           lambda: (diff(E, t1) == -subst(cp, {tc.id: Rat.atom(t1)}), str(-subst(cp, {tc.id: Rat.atom(t1)})), str(diff(E, t1))))
+    decide("E(t,t) == 0", "empty interval", lambda: (A(a, a).is_zero(), "0", str(A(a, a))))
+    decide("E(a,b) + E(b,a) == 0", "antisymmetry", lambda: ((A(a, b) + A(b, a)).is_zero(), "0", str(A(a, b) + A(b, a))))
+    decide("E(a,b) + E(b,c) == E(a,c)", "additivity", lambda: (A(a, b) + A(b, c) == A(a, c), "0", str(A(a, b) + A(b, c) - A(a, c))))
     ck.exhaustive = True
     ck.assume("attrs converters float(value) on the constants are value-preserving")
